@@ -36,9 +36,8 @@ ASSUMPTIONS = [
     "fresh_ok's 'existing labels' for a direct factorize_rule call = the labels argument, the rule's lhs and every edge label of the rule",
 ]
 METHODS = ["min_fill", "quickbb", "acb"]
-F7_KEY = "factorize_fgg_ignores_method"
-F20_KEY = "from_hrg_drops_unused_labels"
-F22_KEY = "factorize_rule_fresh_name_is_terminal_name"
+# F7, F20, F22 were found by this check and are repaired in /repo (207a206, 833be06 + 450bcaa, 211579c); the
+# known_findings.json entries are 'fixed' and suppress nothing: a regression is a VIOLATION again
 
 # ----------------------------------------------------------------------------
 # generators
@@ -278,22 +277,6 @@ def snapshot(cn, h, b):
         s.append(sorted((k, id(v), v.size()) for k, v in h.domains.items()))
     return s
 
-def f22_predicate(call):
-    """F22: direct factorize_rule call; some terminal label of the rule is not in the labels argument
-    and is named <lhs>_<k>"""
-    rule = call["rule"]
-    have = {l.name for l in (call["labels_before"] or ())}
-    for l in rule.rhs.edge_labels():
-        if l.is_terminal and l.name not in have and l.name.startswith(rule.lhs.name + "_") and l.name[len(rule.lhs.name) + 1:].isdigit():
-            return True
-    return False
-
-def f20_predicate(spec):
-    """F20: a terminal label bound to a factor, or a node label bound to a domain, occurs in no rule"""
-    used_t = {l for r in spec["rules"] for l, _ in r["edges"]}
-    used_n = {nl for r in spec["rules"] for nl in r["nodes"]}
-    return any(el not in used_t for el in spec["weights"]) or any(i not in used_n for i in range(len(spec["nlabels"])))
-
 def to_q(x):
     x = float(x)
     if x != x: raise ValueError("nan in sum_product")
@@ -388,9 +371,8 @@ def run_case(spec, names, ids, method, entry, labels_mode, rng, out, violations,
             a = [to_q(x) for x in _dense(z0)]; c = [to_q(x) for x in _dense(z1)]
             out["close"].append(((a, c), meta, calls_txt))
         except Exception as e:
-            fk = F20_KEY if f20_predicate(spec) and isinstance(e, KeyError) else None
             violations.append(Violation("sum_product of the factorised FGG raised %r" % (e,), case=meta, call=calls_txt,
-                                        corr="C05_sum_product / fggs.sum_product before and after", finding_key=fk))
+                                        corr="C05_sum_product / fggs.sum_product before and after"))
 
 def _prod(xs):
     p = 1
@@ -408,7 +390,7 @@ RULE_MSG = {
     2: ("a fresh nonterminal collides with an existing label, or does not have exactly one rule and one use", "fresh_ok", "C05_fresh"),
     3: ("a new rule has more nodes than the original, or its node set is not a bag of the decomposition", "nodes_ok", "C05_edges_once (nodes)"),
     4: ("factorize_rule raised an exception", "no exception expected", "corr:factorize_rule"),
-    5: ("factorize_rule raised ValueError: a fresh nonterminal got the name of a terminal label of the rule", "C05_fresh (guard terms_covered)", "C05_fresh_refuted"),
+    5: ("factorize_rule raised ValueError: a fresh nonterminal got the name of an edge label of the rule", "C05_fresh", "C05_fresh / C05_fresh_old_refuted (F22)"),
     13: ("the graph handed to tree_decomposition is not the primal graph of the rule", None, "corr:primal"),
 }
 GRAM_MSG = {
@@ -462,12 +444,9 @@ def run(tier, seed):
         if c == 0: continue
         case = dict(meta, rule=v[0], labels=v[1], decomposition=v[3], ext_orders=v[4])
         obs = dict(outcome=v[5][0], new_rules=v[5][1], exception=repr(call["exc"]) if call["exc"] is not None else None)
-        fk = None
-        if c in (2, 4, 5) and meta["entry"] == "rule" and f22_predicate(call) and (c != 4 or isinstance(call["exc"], ValueError)):
-            fk = F22_KEY
         if c in RULE_MSG:
             what, orc, corr = RULE_MSG[c]
-            violations.append(Violation("factorize_rule: " + what, case=case, observed=obs, oracle=orc, corr=corr, call=txt, finding_key=fk))
+            violations.append(Violation("factorize_rule: " + what, case=case, observed=obs, oracle=orc, corr=corr, call=txt))
         else:
             violations.append(Violation("factorize_rule: output differs from the model (verdict %d) although the oracles accept it" % c, case=case, observed=obs,
                                         corr="corr:factorize_rule (Model.Factorize.factorize_rule_model)", failing_input_found=False, call=txt))
@@ -494,12 +473,9 @@ def run(tier, seed):
         if c == 0: continue
         case = dict(meta)
         obs = dict(outcome=v[6][0], methods_used=[METHODS[u] if u < 3 else "?" for u in v[2]], new_grammar=v[6][2], exception=repr(gexc) if gexc is not None else None)
-        fk = None
-        if c == 7 and meta["entry"] == "fgg" and meta["method"] != "min_fill" and set(v[2]) <= {0}: fk = F7_KEY
-        if c == 8 and meta["entry"] == "fgg" and f20_predicate(spec): fk = F20_KEY
         if c in GRAM_MSG:
             what, orc, corr = GRAM_MSG[c]
-            violations.append(Violation("factorize_%s: %s" % (meta["entry"], what), case=case, observed=obs, oracle=orc, corr=corr, call=txt, finding_key=fk))
+            violations.append(Violation("factorize_%s: %s" % (meta["entry"], what), case=case, observed=obs, oracle=orc, corr=corr, call=txt))
         else:
             violations.append(Violation("factorize_%s: output differs from the model (verdict %d) although the oracles accept it" % (meta["entry"], c), case=case, observed=obs,
                                         corr="corr:factorize_hrg (Model.Factorize.factorize_hrg_model / factorize_fgg_model)", failing_input_found=False, call=txt))
@@ -508,11 +484,10 @@ def run(tier, seed):
     scodes, n3 = run_model(SP, svals, seed=seed, coq_sample=3 if tier == "quick" else 10, tag="c05sp"); nk += n3; total += len(svals)
     for (v, meta, txt), c in zip(out["sp"], scodes):
         if c == 0: continue
-        fk = F20_KEY if c == 22 and f20_predicate(gen.spec_from_json(meta["spec"])) else None
         violations.append(Violation("the sum-product of the factorised FGG differs from the original's (exact arithmetic, Ztab; verdict %d)" % c if c == 5 else
                                     "sum-product comparison impossible: translated grammar ill-formed (verdict %d)" % c,
                                     case=meta, observed=dict(new_grammar=v[2]), oracle="Ztab before = Ztab after", corr="C05_sum_product", call=txt,
-                                    failing_input_found=(c == 5), finding_key=fk))
+                                    failing_input_found=(c == 5)))
     cvals = [v for v, _, _ in out["close"]]
     ccodes, n4 = run_model(CLOSE, cvals, seed=seed, coq_sample=5, tag="c05close"); nk += n4; total += len(cvals)
     for (v, meta, txt), c in zip(out["close"], ccodes):
@@ -529,7 +504,12 @@ def run(tier, seed):
                open_items=OPEN_ITEMS)
     return cov, violations
 
-OPEN_ITEMS = []
+OPEN_ITEMS = [
+    "proved (Props/C05.v, unbounded, every valid decomposition / order / label set): C05_edges_once, C05_inline, C05_fresh, C05_method_honoured (+ _hrg), C05_hrg_keeps_labels, C05_fgg_keeps_labels_factors_domains, C05_valid_td_rooted, C05_visit_visits_every_bag_once, C05_clique_in_a_bag, C05_visit_is_structural, oracle soundness (C05_inline_ok_sound, C05_fresh_ok_sound, C05_nodes_ok_sound); generic in the commutative semiring: C05_unfold_rule, C05_unfold_step, C05_unfold_fixpoints, C05_sum_product_partial (Zk unchanged by one unfolding, non-recursive grammars), C05_sum_product_rule (the new rule for the original lhs has the value of the original rule in every environment that solves the fresh nonterminals' equations); records of the repaired defects: C05_method_honoured_old_refuted (F7), C05_labels_old_refuted (F20), C05_fresh_old_refuted(_silent) (F22); C05_invalid_td_loses_edge_example",
+    "open: C05_sum_product at grammar level (Zk of to_sp_grammar before = after on every original nonterminal): the rule-level theorem C05_sum_product_rule and the one-step unfolding theorems are proved; missing is the assembly over all rules of a grammar (fresh nonterminals have one rule each in the whole grammar; the label numbering of the factorised grammar extends the original one) and, for recursive grammars, the passage from 'same solutions of the equations' to the limit of the Kleene iterates; covered per case by fz_sp_check (exact Ztab before/after) and the float comparison",
+    "open: no Coq theorem about the gluing done by factorize_hrg beyond label preservation (fresh names unique across rules, rules regrouped by lhs); covered per case by glue_ok and the model comparison",
+    "open: totality of the model (no Err on a valid decomposition with valid orders) is not proved; no model error was observed",
+]
 
 def replay(path):
     r = json.load(open(path))
